@@ -1565,7 +1565,11 @@ func main() {
 
 	otel.SetErrorHandler(otel.ErrorHandlerFunc(func(e error) {
 		handledMu.Lock()
-		handledMsgs = append(handledMsgs, e.Error())
+		m := e.Error()
+		if len(m) > 400 { // partial-success messages can be a megabyte: the head (kind of report, scenario token) is all that is looked at
+			m = m[:400]
+		}
+		handledMsgs = append(handledMsgs, m)
 		handledMu.Unlock()
 	}))
 
@@ -1952,7 +1956,10 @@ func main() {
 		return n
 	}
 	psMatrix := []PSpec{{Present: true, Rejected: 0, Msg: "warning text"}, {Present: true, Rejected: 5, Msg: ""},
-		{Present: true, Rejected: 2, Msg: "some were rejected"}, {Present: true, Rejected: 0, Msg: ""}, {Present: false}}
+		{Present: true, Rejected: 2, Msg: "some were rejected"}, {Present: true, Rejected: 0, Msg: ""}, {Present: false},
+		// large responses (a collector listing every rejected series): 64 KiB, 200 KiB, 1 MiB of message (gRPC's default receive limit is 4 MiB)
+		{Present: true, Rejected: 7, Msg: strings.Repeat("m", 64<<10)}, {Present: true, Rejected: 0, Msg: strings.Repeat("w", 200<<10)},
+		{Present: true, Rejected: 9, Msg: strings.Repeat("x", 1<<20)}}
 	for e := 0; e < 6; e++ {
 		for pi := range psMatrix {
 			ps := psMatrix[pi]
@@ -1966,7 +1973,8 @@ func main() {
 			before := countPS()
 			ob, fail, inc := runScenario(&sc, 30*time.Second)
 			reports := countPS() - before
-			desc := map[string]any{"exporter": exporterNames[e], "partial_success": ps, "observed": ob, "partial_success_reports": reports}
+			desc := map[string]any{"exporter": exporterNames[e], "partial_success": map[string]any{"present": ps.Present, "rejected": ps.Rejected, "message_bytes": len(ps.Msg)},
+				"observed": ob, "partial_success_reports": reports}
 			if fail != "" {
 				w.Violation(fail, desc)
 				continue
@@ -1980,7 +1988,7 @@ func main() {
 			if ps.Present {
 				pinfo = vgen.App("Partial", vgen.N(uint64(ps.Rejected)), vgen.Bool(ps.Msg != ""))
 			}
-			w.Tally(fmt.Sprintf("partial-success:present=%v,rejected=%d,msg=%v->reports=%d", ps.Present, ps.Rejected, ps.Msg != "", reports))
+			w.Tally(fmt.Sprintf("partial-success:present=%v,rejected=%d,msg_bytes=%d->reports=%d", ps.Present, ps.Rejected, len(ps.Msg), reports))
 			w.Add(vgen.App("CPartial", vgen.N(uint64(e)), pinfo, vgen.N(uint64(ob.ErrClass)), vgen.N(uint64(reports))), desc, "partial-success-"+exporterNames[e], true)
 		}
 	}
